@@ -461,33 +461,41 @@ func (c *EvalCtx) local(name string) (Value, bool) {
 	// the source name is gone (renamed local): fall back on the shape recorded in the contract
 	if ct := c.ex.contracts[fnName(c.fn)]; ct != nil {
 		if d, ok := ct.Locals[name]; ok {
-			n := 0
-			for _, b := range c.fn.Blocks {
-				for _, in := range b.Instrs {
-					var t types.Type
-					switch x := in.(type) {
-					case *ssa.Phi:
-						t = x.Type()
-					case *ssa.Alloc:
-						t = x.Type().(*types.Pointer).Elem()
-					case *ssa.MakeMap:
-						t = x.Type()
-					default:
-						continue
-					}
-					if typeShort(t) != d.Type {
-						continue
-					}
-					if n == d.N {
-						if v, ok := fr.Regs[in.(ssa.Value)]; ok {
-							if _, isAlloc := in.(*ssa.Alloc); isAlloc {
-								return c.ex.specLoad(st, v), true
-							}
-							return v, true
+			// exact type first; a map local whose value type was changed is still "the N-th map made"
+			for _, loose := range []bool{false, true} {
+				n := 0
+				for _, b := range c.fn.Blocks {
+					for _, in := range b.Instrs {
+						var t types.Type
+						switch x := in.(type) {
+						case *ssa.Phi:
+							t = x.Type()
+						case *ssa.Alloc:
+							t = x.Type().(*types.Pointer).Elem()
+						case *ssa.MakeMap:
+							t = x.Type()
+						default:
+							continue
 						}
-						return nil, false
+						if strings.HasPrefix(d.Type, "map[") {
+							// a map local is "the N-th map made" whatever its value type has become
+							if _, isMake := in.(*ssa.MakeMap); !isMake || loose {
+								continue
+							}
+						} else if loose || typeShort(t) != d.Type {
+							continue
+						}
+						if n == d.N {
+							if v, ok := fr.Regs[in.(ssa.Value)]; ok {
+								if _, isAlloc := in.(*ssa.Alloc); isAlloc {
+									return c.ex.specLoad(st, v), true
+								}
+								return v, true
+							}
+							return nil, false
+						}
+						n++
 					}
-					n++
 				}
 			}
 		}
